@@ -142,6 +142,9 @@ def hybrid_decode(buf, pos, end, count, width, stats=None):
         if header & 1:
             n = (header >> 1) * 8
             need = count - len(out)
+            if stats is not None:
+                # declared groups beyond those the remaining values need (largest seen; "_max" keys are not summed)
+                stats["excess_groups_max"] = max(stats.get("excess_groups_max", 0), (header >> 1) - (need + 7) // 8)
             nbytes = (n * width + 7) // 8
             if pos + nbytes > end:
                 # a final group physically truncated after the last needed value
